@@ -341,6 +341,15 @@ func ruleR07k(c *Ctx) {
 		}
 		return true
 	})
+	// ... or through a helper that is nothing but such an append
+	ast.Inspect(ck.Body, func(x ast.Node) bool {
+		if call, ok := x.(*ast.CallExpr); ok {
+			if fv, ok := appendHelpers(c, "parsepasses")[calleeFunc(call, info)]; ok && !U[fv] {
+				L[fv] = true
+			}
+		}
+		return true
+	})
 	if len(U) == 0 || len(L) == 0 {
 		c.fatalf("anchor: the checker's used-params list (read by CheckDataRefs) or its local-binder lists not identified")
 		return
